@@ -290,6 +290,15 @@ pub fn run(rep: &mut Report) {
     rep.bound("calendar_days", days.len() as u64);
     rep.rule = "round trips: calendar lattice restricted to years 0001-9999 x 9 scales, each day with a second-of-day and one of 14 nanosecond patterns cycled deterministically, through Display, to_gregorian_str, the ISO 8601 formatter, serde_json, to_rfc3339 and back through from_str / from_gregorian_str; grammar product: 64 instants x {T, space} x 0..9 fraction digits (2 digit patterns) x zone {none, Z, offsets} x 14 suffixes; numeric forms JD/MJD/SEC x 9 scales x the float lattice within +-10 000 years. Oracle: reference renderer + civil arithmetic; offsets denote local - hh:mm. Non-trivial = fractional second, offset, suffix, negative count.".into();
     rep.assumptions = vec!["'Z' followed by a non-UTC suffix is contradictory text (don't-care); explicit UnsupportedTimeSystem refusals are don't-cares; JD in ET/TDB excluded (statement)".into()];
+    // order independence (depth-2 operation sequences on one thread): format + parse round trips of 18 dates x 3 scales in
+    // every order (a parser or formatter that keeps scratch state between calls)
+    {
+        let od: Vec<i64> = [(1i64, 1i64, 1i64), (1, 3, 1), (4, 2, 29), (1400, 1, 1), (1582, 10, 15), (1899, 12, 31), (1900, 1, 1), (1900, 3, 1), (1972, 6, 30), (2000, 2, 29), (2016, 12, 31), (2017, 1, 1), (2024, 11, 30), (2400, 1, 1), (2400, 12, 31), (9999, 12, 31), (-400, 3, 1), (12_000, 7, 4)].iter().map(|(y, m, d)| days1900(*y, *m, *d)).filter(|d| *d >= lo && *d <= hi).collect();
+        let os = [TimeScale::UTC, TimeScale::TAI, TimeScale::BDT];
+        let no = od.len() as u64;
+        let lp = &leap;
+        crate::engine::order_pairs(rep, "c10.order", no * 3, |i, out| j_round_trip(od[(i % no) as usize], [0i128, 86_399, 45_296][(i % 3) as usize], [0i128, 999_999_999, 120_000_000][((i / 3) % 3) as usize], os[(i / no) as usize], lp, out));
+    }
     let nd = days.len() as u64;
     for ts in SCALES {
         sweep(rep, &format!("c10.round_trip[{}]", scale_name(ts)), nd * 2, |i, out| {
